@@ -25,11 +25,17 @@ GWait == /\ More /\ Wait(posted, wakes, FALSE) /\ Log([op |-> "wait", n |-> 64])
 GWaitN == /\ More /\ BagCardinality(posted) + wakes > 2
           /\ \E n \in Pick({1, 2}) : Log([op |-> "wait", n |-> n])
           /\ posted' = EmptyBag /\ wakes' = 0 /\ nposts' = 0     \* generator bookkeeping only: follow with drains
-          /\ UNCHANGED <<q, cap, dropOldest, dropped, wstate>>
-GQC == /\ More /\ cap = 0 /\ \E c \in Pick(Caps), dr \in Pick(BOOLEAN) : QCreate(c, dr) /\ Log([op |-> "qcreate", cap |-> c, drop |-> dr])
+          /\ UNCHANGED <<q, cap, policy, dropped, blocked, wstate>>
+GQC == /\ More /\ cap = 0 /\ \E c \in Pick(Caps), pol \in Pick({"refuse", "drop", "block"}) : QCreate(c, pol) /\ Log([op |-> "qcreate", cap |-> c, policy |-> pol])
        /\ UNCHANGED nposts
-GEnq == /\ More /\ cap > 0 /\ \E m \in Pick(Msgs) : Enq(m, Len(q) < cap \/ dropOldest) /\ Log([op |-> "enq", m |-> m]) /\ UNCHANGED nposts
-GDeq == /\ More /\ cap > 0 /\ Deq(IF q = <<>> THEN "" ELSE Head(q), q # <<>>) /\ Log([op |-> "deq"]) /\ UNCHANGED nposts
+GEnqOne(m) == /\ IF policy = "block" /\ Len(q) >= cap THEN EnqBlocked(m) ELSE Enq(m, Len(q) < cap \/ policy = "drop")
+              /\ Log([op |-> "enq", m |-> m])
+GEnq == /\ More /\ cap > 0 /\ blocked = <<>>
+        /\ \E m \in Pick(Msgs) : GEnqOne(m)
+        /\ UNCHANGED nposts
+\* the waiting writer proceeds as soon as there is room (the harness waits for it after every dequeue)
+GResume == /\ blocked # <<>> /\ Len(q) < cap /\ EnqResumed(Head(blocked), TRUE) /\ UNCHANGED <<hist, nposts>>
+GDeq == /\ More /\ cap > 0 /\ ~(blocked # <<>> /\ Len(q) < cap) /\ Deq(IF q = <<>> THEN "" ELSE Head(q), q # <<>>) /\ Log([op |-> "deq"]) /\ UNCHANGED nposts
 GQS == /\ More /\ cap > 0 /\ Len(hist) > 0 /\ hist[Len(hist)].op # "qstats" /\ Log([op |-> "qstats"]) /\ UNCHANGED <<vars, nposts>>
 GWC == More /\ WCreate /\ Log([op |-> "wcreate"]) /\ UNCHANGED nposts
 GWS == More /\ wstate = "running" /\ WStop /\ Log([op |-> "wstop"]) /\ UNCHANGED nposts
@@ -40,11 +46,11 @@ GWJ == /\ More /\ wstate \in {"running", "stopping"}
        /\ UNCHANGED nposts
 GWD == /\ More /\ wstate = "joined" /\ WDestroy /\ Log([op |-> "wdestroy"]) /\ UNCHANGED nposts
 Stutter == ~More /\ UNCHANGED gvars
-GNext == GPost \/ GWake \/ GWait \/ GWaitN \/ GQC \/ GEnq \/ GDeq \/ GQS \/ GWC \/ GWS \/ GWJ \/ GWD \/ Stutter
+GNext == GResume \/ GPost \/ GWake \/ GWait \/ GWaitN \/ GQC \/ GEnq \/ GDeq \/ GQS \/ GWC \/ GWS \/ GWJ \/ GWD \/ Stutter
 GSpec == GInit /\ [][GNext]_gvars
 
 \* design invariants (P1 on the abstract level)
 QueueBounded == Len(q) <= cap
-DroppedOnlyWhenPolicy == dropped > 0 => dropOldest
+DroppedOnlyWhenPolicy == dropped > 0 => policy = "drop"
 Emit == (Len(hist) = MaxLen) => PrintT(<<"@@B", ToJson(hist)>>)
 =============================================================================
